@@ -407,7 +407,7 @@ func embeddedContentDigest(typ, path string) []byte {
 		}
 		return dg
 	case "ps1", "ps1xml", "mof":
-		blob, err := psSignature(string(data))
+		blob, err := psSignature(decodeText(data))
 		if err != nil {
 			return nil
 		}
